@@ -559,12 +559,19 @@ class Circuit:
         marks = [False] * len(self.nodes)
         for n in origin_nodes:
             marks[n] = True
+        sequential = []
         for n in self.reversed_topological_order():
             if not marks[n]:
+                if 'dff' in n.kind.lower() or 'latch' in n.kind.lower():
+                    sequential.append(n)  # comes before its readers in this order, decide when they are marked
+                    continue
                 for line in n.outs:
                     if line is not None:
                         marks[n] |= marks[line.reader]
             if marks[n]:
+                yield n
+        for n in sequential:  # sequential elements that feed the cone are its (pseudo) inputs
+            if any(line is not None and marks[line.reader] for line in n.outs):
                 yield n
 
     def fanout_free_regions(self):
